@@ -518,8 +518,9 @@ pub fn gen_random(r: &mut Rng, n: usize) -> History {
                 // top of the range, where the octave above does not exist
                 ops.push(Op::Convert(*r.pick(&[10.0f32, 9.999_999, 9.9999, 9.9917, 9.95, 10.0001])));
             }
-            0 => ops.push(Op::Forbid((0..r.below(5)).map(|_| r.below(14) as u8).collect())),
-            1 => ops.push(Op::Allow((0..r.below(5)).map(|_| r.below(14) as u8).collect())),
+            // (note arguments stay in 0..=11 here: how larger values are clamped is C20's subject, not C07/C09/C19's)
+            0 => ops.push(Op::Forbid((0..r.below(5)).map(|_| r.below(12) as u8).collect())),
+            1 => ops.push(Op::Allow((0..r.below(5)).map(|_| r.below(12) as u8).collect())),
             2 => {
                 // forbid everything in a random order (the last one survives)
                 let mut all: Vec<u8> = (0..12).collect();
@@ -527,12 +528,12 @@ pub fn gen_random(r: &mut Rng, n: usize) -> History {
                     all.swap(i, r.usize_below(i + 1));
                 }
                 if r.chance(0.3) {
-                    all.push(200 + r.below(50) as u8);
+                    all.push(r.below(12) as u8);
                 }
                 ops.push(Op::Forbid(all));
             }
-            3 => ops.push(Op::Allow(vec![r.below(256) as u8])),
-            4 => ops.push(Op::Forbid(vec![r.below(256) as u8, r.below(12) as u8])),
+            3 => ops.push(Op::Allow(vec![r.below(12) as u8])),
+            4 => ops.push(Op::Forbid(vec![r.below(12) as u8, r.below(12) as u8])),
             5 => ops.push(Op::Convert(rand_voltage(r))),
             6 => {
                 v = r.uniform(0.0, 10.0);
